@@ -355,7 +355,7 @@ func run(t *T) {
 	n := 0
 	for round := 0; round < rounds; round++ {
 		for si, sec := range secs {
-			o := gen.Opts{SECs: []string{sec}, Categories: gen.AllCategories(), MinBatches: 1, MaxBatches: 2, MaxEntries: 3, MaxAddenda: 2,
+			o := gen.Opts{IATCorrections: true, SECs: []string{sec}, Categories: gen.AllCategories(), MinBatches: 1, MaxBatches: 2, MaxEntries: 3, MaxAddenda: 2,
 				PresetTraces: true, Offset: round%2 == 1, NonASCII: (si+round)%4 == 3, FullWidth: (si+round)%5 == 4}
 			addGen(n, o, sec, (si+round)%3 == 2)
 			n++
@@ -363,13 +363,13 @@ func run(t *T) {
 		// the IAT and ADV layouts differ from the standard one: two larger files of each
 		for m := 0; m < 4; m++ {
 			sec := []string{ach.IAT, ach.ADV}[m%2]
-			o := gen.Opts{SECs: []string{sec}, Categories: gen.AllCategories(), MinBatches: 2, MaxBatches: 3, MaxEntries: 4, PresetTraces: m < 2, NonASCII: m >= 2, FullWidth: m >= 2}
+			o := gen.Opts{IATCorrections: true, SECs: []string{sec}, Categories: gen.AllCategories(), MinBatches: 2, MaxBatches: 3, MaxEntries: 4, PresetTraces: m < 2, NonASCII: m >= 2, FullWidth: m >= 2}
 			addGen(n, o, sec+"-large", m == 3)
 			n++
 		}
 		// mixed files: standard + IAT batches of several SECs, returns and NOCs
 		for m := 0; m < 2; m++ {
-			o := gen.Opts{Categories: gen.AllCategories(), MinBatches: 3, MaxBatches: 4, MaxEntries: 3, PresetTraces: m == 0, Offset: true, NonASCII: m == 1}
+			o := gen.Opts{IATCorrections: true, Categories: gen.AllCategories(), MinBatches: 3, MaxBatches: 4, MaxEntries: 3, PresetTraces: m == 0, Offset: true, NonASCII: m == 1}
 			addGen(n, o, "mixed", m == 1)
 			n++
 		}
